@@ -204,6 +204,18 @@ func init() {
 	builders["ean13+5"] = func() *image.Gray {
 		return refoned.Image(refoned.WithAddOn(refoned.EAN13("5901234123457"), refoned.AddOn5("52495"), 9), 1, 12, 12, 1)
 	}
+	// 5-digit add-ons with the price codes that have a meaning of their own (90000 = no price,
+	// 99990 = used, 99991 = complimentary) and the three currency prefixes, on two main symbols with
+	// and without a known country prefix
+	for _, v := range []string{"90000", "99990", "99991", "01299", "51299", "99999"} {
+		v := v
+		builders["ean13+5="+v] = func() *image.Gray {
+			return refoned.Image(refoned.WithAddOn(refoned.EAN13("4901234567894"), refoned.AddOn5(v), 9), 1, 12, 12, 1)
+		}
+		builders["isbn+5="+v] = func() *image.Gray {
+			return refoned.Image(refoned.WithAddOn(refoned.EAN13("9780306406157"), refoned.AddOn5(v), 9), 1, 12, 12, 1)
+		}
+	}
 	builders["ean13+2"] = func() *image.Gray {
 		return refoned.Image(refoned.WithAddOn(refoned.EAN13("5901234123457"), refoned.AddOn2("12"), 9), 1, 12, 12, 1)
 	}
@@ -488,7 +500,9 @@ var needs = map[string][]string{
 	"qr-r-pure": {"qr-pure"}, "qr-r-located": {"qr-loc"}, "qr-r-v7-hard": {"qr-v7"}, "qr-r-eci": {"qr-eci"}, "qr-r-kanji": {"qr-kanji"}, "qr-r-multi": {"qr-loc"},
 	"dm-r-pure": {"dm-pure"}, "dm-r-located": {"dm-loc"}, "dm-r-rect": {"dm-rect"}, "aztec-r-compact": {"aztec-c"}, "aztec-r-full": {"aztec-f"},
 	"ean13-r": {"ean13"}, "ean13-r-multi": {"ean13-tall"}, "ean8-r": {"ean8"}, "upca-r": {"upca"}, "upce-r": {"upce"}, "code39-r": {"code39"}, "code39-r-ext": {"code39ext"},
-	"ean13-r-addon5": {"ean13+5"}, "ean13-r-addon2": {"ean13+2"}, "multi-r-upca-addon5": {"upca+5"}, "ean8-r-addon-wrong-parity": {"ean8+2-wrong"},
+	"ean13-r-addon5-price-codes": {"ean13+5=90000", "ean13+5=99990", "ean13+5=99991", "ean13+5=01299", "ean13+5=51299", "ean13+5=99999"},
+	"isbn-r-addon5-price-codes":  {"isbn+5=90000", "isbn+5=99990", "isbn+5=99991", "isbn+5=01299", "isbn+5=51299", "isbn+5=99999"},
+	"ean13-r-addon5":             {"ean13+5"}, "ean13-r-addon2": {"ean13+2"}, "multi-r-upca-addon5": {"upca+5"}, "ean8-r-addon-wrong-parity": {"ean8+2-wrong"},
 	"ean13-r-addon-required": {"ean13+5"}, "code39-r-check": {"code39chk"}, "code128-r-gs1": {"code128gs1"}, "itf-r-allowed-lengths": {"itf6"},
 	"codabar-r-startend": {"codabar"}, "dm-r-macro": {"dm-macro"}, "qr-r-gs1": {"qr-gs1"},
 	"qr-r-utf16be": {"qr-utf16be"}, "qr-r-gb18030": {"qr-gb18030"}, "qr-r-euckr": {"qr-euckr"}, "qr-r-big5": {"qr-big5"}, "qr-r-sjis-byte": {"qr-sjis-byte"}, "qr-r-1251": {"qr-1251"},
@@ -598,6 +612,20 @@ func all() []opLit {
 		{"codabar-r", func() string { return read(oned.NewCodaBarReader(), img("codabar"), nil) }},
 		{"rss14-r", func() string { return read(rss.NewRSS14Reader(), img("rss14"), nil) }},
 		{"ean13-r-addon5", func() string { return read(oned.NewEAN13Reader(), img("ean13+5"), nil) }},
+		{"ean13-r-addon5-price-codes", func() string {
+			var sb strings.Builder
+			for _, v := range []string{"90000", "99990", "99991", "01299", "51299", "99999"} {
+				sb.WriteString(read(oned.NewEAN13Reader(), img("ean13+5="+v), nil) + ";")
+			}
+			return sb.String()
+		}},
+		{"isbn-r-addon5-price-codes", func() string {
+			var sb strings.Builder
+			for _, v := range []string{"99991", "90000", "51299", "99990", "01299", "99999"} {
+				sb.WriteString(read(oned.NewMultiFormatUPCEANReader(nil), img("isbn+5="+v), nil) + ";")
+			}
+			return sb.String()
+		}},
 		{"ean13-r-addon2", func() string { return read(oned.NewEAN13Reader(), img("ean13+2"), nil) }},
 		{"multi-r-upca-addon5", func() string { return read(oned.NewMultiFormatUPCEANReader(nil), img("upca+5"), nil) }},
 		{"ean8-r-addon-wrong-parity", func() string { return read(oned.NewEAN8Reader(), img("ean8+2-wrong"), nil) }},
